@@ -124,11 +124,13 @@ fn markdown_comments_parser() -> anyhow::Result<impl CommentsParser> {
             result.push_str("     ");
             // Replace everything before the open delimiter with spaces (including the delimiter);
             // line breaks stay (the title may sit on the next line), so that positions hold.
-            result.extend(
-                comment[prefix_idx + 5..=open_idx]
-                    .bytes()
-                    .map(|b| if b == b'\n' || b == b'\r' { b as char } else { ' ' }),
-            );
+            result.extend(comment[prefix_idx + 5..=open_idx].bytes().map(|b| {
+                if b == b'\n' || b == b'\r' {
+                    b as char
+                } else {
+                    ' '
+                }
+            }));
             // Copy the comment's content.
             result.push_str(&comment[open_idx + 1..close_idx]);
             // Replace the close delimiter with a space.
@@ -228,7 +230,8 @@ Some text here 3
     fn link_reference_title_on_the_next_line_keeps_its_position() -> anyhow::Result<()> {
         let mut parser = parser()?;
 
-        let content = "# Header\n\n[//]: #\n  (<block name=\"below\">)\n\ntext\n\n[//]: # (</block>)\n";
+        let content =
+            "# Header\n\n[//]: #\n  (<block name=\"below\">)\n\ntext\n\n[//]: # (</block>)\n";
         let blocks = parser.parse(content)?;
 
         assert_eq!(blocks.len(), 1);
